@@ -236,7 +236,7 @@ func (c *Ctx) parseContracts(p *packages.Package) error {
 						g.Fields[strings.TrimSpace(f)] = true
 					}
 					c.guards[p.PkgPath] = append(c.guards[p.PkgPath], g)
-				case "shared_types", "startup_funcs", "shared_globals", "reviewed_globals":
+				case "shared_types", "startup_funcs", "shared_globals", "reviewed_globals", "mutable_types":
 					sd := c.shared[p.PkgPath]
 					if sd == nil {
 						sd = &SharedDecl{Types: map[string]bool{}, Startup: map[string]bool{}}
@@ -252,6 +252,12 @@ func (c *Ctx) parseContracts(p *packages.Package) error {
 							sd.Types[n] = true
 						case "startup_funcs":
 							sd.Startup[n] = true
+						case "mutable_types":
+							// per-session state reachable from shared state, with its own discipline
+							if sd.Mutable == nil {
+								sd.Mutable = map[string]bool{}
+							}
+							sd.Mutable[n] = true
 						case "reviewed_globals":
 							// package-level variables whose address may be handed to calls while serving
 							if sd.Reviewed == nil {
